@@ -7,6 +7,7 @@ __maintainer__ = "Patrick Renner, Alexander Sahm"
 __email__ = "opensource@pomfort.com"
 """
 
+import os
 from collections import defaultdict
 from typing import Dict, List
 
@@ -306,4 +307,15 @@ class MHLGenerationCreationSession:
             if history.parent_history is not None:
                 referenced_hash_lists[history.parent_history].append(new_hash_list)
 
-            chain_xml_parser.write_chain(history.chain, new_hash_list)
+            try:
+                chain_xml_parser.write_chain(history.chain, new_hash_list)
+            except BaseException:
+                # without its chain entry the manifest that was just written is not part of the history: take it away
+                # again (and the ascmhl folder if this was its first generation), otherwise later runs find a
+                # folder without chain file or a generation that the chain does not know
+                for cleanup, path in ((os.remove, new_hash_list.file_path), (os.rmdir, history.asc_mhl_path)):
+                    try:
+                        cleanup(path)
+                    except OSError:
+                        pass
+                raise
